@@ -118,6 +118,24 @@ def any_nontrivial(inp, outp):
     return run_nontrivial(inp, outp) if inp.startswith('run ') else state_nontrivial(inp, outp)
 
 
+def compare_c20(inp, impl_out, model_out):
+    if inp.startswith('c20stress'):
+        return impl_out == model_out
+    a = dict(t.split('=', 1) for t in impl_out.split(' '))
+    b = dict(t.split('=', 1) for t in model_out.split(' '))
+    if a.get('blocked') != b.get('blocked') or a.get('order') != b.get('order'):
+        return False
+    ao, bo = a.get('obs', '-'), b.get('obs', '-')
+    al = [] if ao == '-' else ao.split(';')
+    bl = [] if bo == '-' else bo.split(';')
+    if len(al) != len(bl):
+        return False
+    for x, y in zip(al, bl):
+        if y not in x.split('|'):
+            return False
+    return b.get('final') in a.get('final', '').split('|')
+
+
 def state_prop(tag):
     return dict(crates=['hcore'], modes=[('hcore', 'state')], nontrivial=state_nontrivial, rule=STATE_RULE,
                 compare=compare_state, oracle_tag=tag, explanation='sampled histories; the theorems quantify over all histories')
@@ -130,6 +148,14 @@ PROPS = {
                 explanation='sampled histories; the theorems quantify over all histories'),
     'C15': state_prop('C15'),
     'C19': state_prop('C19'),
+    'C20': dict(crates=['hcore'], modes=[('hcore', 'c20')], compare=compare_c20, oracle_tag='C20',
+                nontrivial=lambda inp, outp: inp.startswith('c20 ') and 'obs=-' not in outp,
+                rule='controlled-schedule runs of the real Tracer: at every yield point inside State::update_from_round (the real handler holding the write lock mid-update) a reader thread (snapshot) '
+                     'and a clearer thread (clear) are released and given a 25 ms window; single pre-emption at every placement plus random double pre-emptions over histories of <= 3 (quick) / 4 (thorough) rounds, '
+                     'plus free-running stress with several readers and a clearer; the interleaving model replays the enforced schedule and must predict blocked/blocked and the same whole-rounds snapshot; '
+                     'non-trivial = a controlled run in which a snapshot was taken; distinct = distinct (history, placement, completion order)',
+                explanation='PARTIAL: the theorem covers every schedule of the lock-discipline model; its tie to the code is schedule exploration (testing) and parking_lot::RwLock is assumed correct. '
+                            'A timeout can only make the harness miss a defect (a slow reader looks blocked), never invent one.'),
     'C03': strat_prop('C03'),
     'C06': strat_prop('C06'),
     'C07': strat_prop('C07'),
